@@ -93,4 +93,17 @@ theorem C02_two_classes_refused (p a q p' a' q' : Expr) :
 example : exprIntoNumber (.node .assets [.leaf .none, .leaf .none, .node .assets [.leaf .none, .leaf .none,
     .node .assets [.leaf .none, .leaf .none, .leaf (.number 7)]]]) = .ok 7 := by simp [exprIntoNumber]
 
+/-- `k` one-entry values around an expression (`Ada(Ada(..e..))`, any class at each level). -/
+def nestOne : List (Expr × Expr) → Expr → Expr
+  | [], e => e
+  | (p, a) :: rest, e => .node .assets [p, a, nestOne rest e]
+
+/-- **Wrapping does not change the number read**: through any number of one-entry values, of any classes, a
+one-number position reads exactly what the innermost expression denotes - the same number or the same refusal. -/
+theorem C02_scalar_nest (ws : List (Expr × Expr)) (e : Expr) :
+    exprIntoNumber (nestOne ws e) = exprIntoNumber e := by
+  induction ws with
+  | nil => rfl
+  | cons w rest ih => obtain ⟨p, a⟩ := w; simp only [nestOne]; rw [exprIntoNumber_one, ih]
+
 end Tx3
